@@ -50,6 +50,15 @@ func (e *Env) with(name string, b Binding) *Env {
 	return &n
 }
 
+// withBoth binds a name in this environment and in its old() environment.
+func (e *Env) withBoth(name string, b Binding) *Env {
+	n := e.with(name, b)
+	if e.old != nil {
+		n.old = e.old.with(name, b)
+	}
+	return n
+}
+
 func (e *Env) evalBool(x Expr) (t Term, err error) {
 	defer func() {
 		if r := recover(); r != nil {
@@ -857,6 +866,36 @@ func (e *Env) call(x ECall) Binding {
 			evalFail("iterkey outside a function")
 		}
 		return e.fr.iterKey(x, e)
+	}
+	if sf, ok := c.V.CS.Specs[x.Fun]; ok && sf.Macro {
+		// macro: the body is evaluated in the current state with the parameters bound
+		if len(sf.Params) != len(x.Args) {
+			evalFail("spec macro %s: arity", x.Fun)
+		}
+		env := e
+		spkg := e.pkg
+		if dp := c.declPkg(sf.Pkg); dp != nil {
+			spkg = dp
+		}
+		for i, p := range sf.Params {
+			a := arg(i)
+			pty, _ := c.resolveType(p.Type, spkg)
+			if isUntypedNil(a.Ty) && pty != nil {
+				a = Binding{c.zero(pty), pty}
+			}
+			if a.Ty == nil {
+				a.Ty = pty
+			}
+			env = env.withBoth(p.Name, a)
+		}
+		saved := env.pkg
+		env.pkg = spkg
+		if env.old != nil {
+			env.old.pkg = spkg
+		}
+		r := env.eval(sf.Body)
+		env.pkg = saved
+		return r
 	}
 	if sf, ok := c.V.CS.Specs[x.Fun]; ok {
 		c.declareSpec(sf, e)
